@@ -434,6 +434,21 @@ def merge_rule(ctx, fm):
             kmr = [fm.term(fm.parent[id(p)]) for p in parses if "u64" in p.get("ty", "")]
             ok = asg.get("op") == "+=" and lt[0] == "call" and lt[1].endswith("or_insert") and lt[3] == L(0) \
                 and cnt and fm.term(asg["r"]) == cnt[0] and kmr and fm.term(ent[0]["args"][0]) == kmr[0]
+    if ent:
+        rl = fm.enclosing(ent[0], ("for", "while", "loop"))
+        inner_clo = fm.enclosing(ent[0], ("closure",))
+        branchy = [x for x in walk(rl["body"]) if x.get("k") in ("if", "match", "continue", "break", "ret")] if rl else []
+        okl = rl is not None and not branchy and any(a is inner_clo for a in fm.ancestors(rl))
+        ctx.check("C07.M", "merge:every_line", okl, "every line of every chunk file is accumulated unconditionally",
+                  "the merge reader skips or filters lines (`%s` in the reading loop): occurrences would be lost"
+                  % (branchy[0].get("k") if branchy else "?"), line_of(branchy[0]) if branchy else line_of(ent[0]))
+    # chunk writer: every entry of every partition map is written
+    fcw = ctx.view(CHUNK)
+    if fcw is not None:
+        scans = [n for n in fcw.nodes if is_scc(n) and cname(n).endswith("::scan")]
+        okw = len(scans) == 1 and not [x for x in walk(scans[0]) if x.get("k") in ("if", "match", "ret")]
+        ctx.check("C07.M", "count_chunk:every_entry_written", okw, "every (k-mer, count) entry of a partition is written",
+                  "the chunk writer filters the entries it writes", line_of(scans[0]) if scans else fcw.fn["sp"])
     ctx.check("C07.M", "merge:accumulate", ok, "*map.entry(kmer).or_insert(0) += count",
               "merge accumulation is `%s`, expected `*map.entry(<parsed k-mer>).or_insert(0) += <parsed count>`" % detail,
               line_of(ent[0]) if ent else line_of(part_loop))
